@@ -48,13 +48,9 @@ func d1GenFatigueProps(r *Rng) J {
 	return pr
 }
 
-func d1BoundingSX(b *criteria_bounding.CriteriaBounding) SX {
-	return L(Num(b.AllowedValuesRangeScaling), Bool(b.DisallowNegativeValues))
-}
 
-func d1FatigueReportSX(f fatigue.FatigueResult) SX {
-	return L(Num(f.EffectiveFatigueRatio), altsSX(f.ConsideredAlternatives), altsSX(f.NotConsideredAlternatives))
-}
+
+
 
 func d1In17(bc *d1BiasCase, pr J) interface{} { return bc.input("fatigue", pr) }
 
